@@ -39,6 +39,10 @@ def _unrolled_ecef2geodetic(A, v, names, K=UNROLL, entry='ecef2geodetic'):
         F.np = real
 
 
+MAT = lambda n: [[f'{c}{i}' for c in 'xyz'] for i in range(1, n + 1)]
+ROWS = lambda n: [v for r in MAT(n) for v in r]
+
+
 def targets():
     Fm = lambda A: A.common.frames
     mk = lambda n, i, f, doc='', **k: Target(f'C17_{n}', i, f, doc=doc, **k)
@@ -64,6 +68,10 @@ def targets():
         mk('enu2ned', X, lambda A, v: Fm(A).enu2ned(v.vec(*X))),
         mk('ned2enu_rows', X + X0, lambda A, v: Fm(A).ned2enu(v.mat([X, X0])), '(2,3) array: row-wise'),
         mk('enu2ned_rows', X + X0, lambda A, v: Fm(A).enu2ned(v.mat([X, X0])), '(2,3) array: row-wise'),
+        mk('ned2enu_rows3', ROWS(3), lambda A, v: Fm(A).ned2enu(v.mat(MAT(3))), '(3,3) array: still row-wise (not transposed)'),
+        mk('enu2ned_rows3', ROWS(3), lambda A, v: Fm(A).enu2ned(v.mat(MAT(3))), '(3,3) array'),
+        mk('ned2enu_rows4', ROWS(4), lambda A, v: Fm(A).ned2enu(v.mat(MAT(4))), '(4,3) array'),
+        mk('enu2ned_rows4', ROWS(4), lambda A, v: Fm(A).enu2ned(v.mat(MAT(4))), '(4,3) array'),
         mk('aer2enu', ['az', 'el', 'r'], lambda A, v: Fm(A).aer2enu(v.az, v.el, v.r)),
         mk('aer2enu_rad', ['az', 'el', 'r'], lambda A, v: Fm(A).aer2enu(v.az, v.el, v.r, deg=False)),
         mk('enu2aer', ENU, lambda A, v: Fm(A).enu2aer(v.e, v.n, v.u)),
@@ -77,4 +85,511 @@ def targets():
     ]
 
 
-STAGES = []
+STAGES = [['C17_linear.v', 'C17_aer.v'], ['C17_geo.v'], ['C17.v']]
+
+LEVEL_TEXT = ("Coq theorems over the regenerated frames.py: ECEF<->ENU, ENU<->DCA, NED<->ENU, ENU->AER->ENU are exact inverses for all reals, "
+              "ECEF->ENU is an isometry sending the origin to 0, the LLF matrices are SO(3) transposes; for geodetic<->ECEF the unrolled "
+              "trace of ecef2geodetic is proved equal to the hand model, the true latitude is a fixed point of the loop body, height and "
+              "longitude are recovered there, and the round trip through the code is exact on the ellipsoid; convergence of the loop is "
+              "explored by the search oracle only")
+TECHNIQUE = "pysym regeneration (loop unrolled through the public entry point) + hand model proved equal to it + Coq Reals proofs + numeric search"
+RULE = ("geodetic points: cross product of named thin regions (poles exactly, 1e-6 deg from them, equator band |lat| < 1e-6 deg, both hemispheres; "
+        "longitudes +-180, +-90, 0, all four quadrants; heights -10 km, 0, 1000 km) then uniform draws; offsets up to 1e6 m in every octant; "
+        "azimuths in all four quadrants incl. 0/180/360-eps; angles beyond +-360; (N,3) arrays with N in {1,2,3,4,5,7}, integer and list "
+        "operands; non-default ellipsoids; a case is non-trivial when it is not the all-zero input; distinct = distinct (oracle, rounded input)")
+TRUSTED = ["Coq 8.16.1 kernel; vm_compute for the float copies",
+           "pysym tracing translator, incl. the delegating `np` wrapper of tools/props/C17.py that cuts the `while` of ecef2geodetic after 6 exit tests",
+           "hand model coq/model/C17_geodetic.v (proved equal to the regenerated unrolled trace, theorem C17_unrolled_is_model)",
+           "stdlib real-number axioms (sig_forall_dec, sig_not_dec, functional_extensionality_dep, classic)",
+           "real arithmetic stands for binary64 (measured by correspondence and search)"]
+PARTIAL = ("geodetic->ECEF->geodetic: proved = fixed point of the loop body, height and longitude at the fixed point, exact round trip for h = 0, "
+           "longitude for every h; NOT proved = convergence of the tolerance-terminated loop to the fixed point (contraction), and height/longitude "
+           "exactly at the poles where the real model is 0/0 while binary64 works (search oracle covers both, tolerances 2e-8 deg / 1e-10 deg / 1e-5 m)")
+
+# tolerances of the geodetic round trip, calibrated on the pinned tree (+ C17-ecef2geodetic-equator.patch), 4e5 samples:
+# worst latitude error 3.9e-9 deg (= delta * k/(1-k), k ~ e^2: the loop stops 1e-8 rad before its limit), worst longitude
+# error 2.8e-14 deg, worst height error 4.8e-7 m (near |lat| = 89.9).  A wrong constant or sign gives >= 1e-3 deg / metres.
+TOL_LAT, TOL_LON, TOL_H = 2e-8, 1e-10, 1e-5
+TOL_M = 1e-6            # metres, for ECEF/ENU coordinates of size <= 8e6 m (rounding noise ~ 5e-9 m)
+REL = 1e-11             # relative, for pure rotations of vectors (rounding noise ~ 1e-15)
+
+ELLIPSOIDS = [None, (6378137.0, 6356752.314140356), (6378206.4, 6356583.8), (6371000.0, 6371000.0), (3396190.0, 3376200.0)]
+LAT_EDGE = [90.0, -90.0, 0.0, 1e-7, -1e-7, 5.7e-7, -3e-7, 1e-5, -1e-5, 89.999999, -89.999999, 89.9, -89.93, 45.0, -45.0, -33.0, 60.0, -1.0]
+LON_EDGE = [180.0, -180.0, 0.0, 90.0, -90.0, 135.0, -135.0, 179.999999, -179.999999, 91.0, -91.0, 1e-9, 30.0, -60.0]
+H_EDGE = [-1e4, 0.0, 1e6, 100.0, -431.0, 35000.0]
+
+
+def _F():
+    from ahrs.common import frames
+    return frames
+
+
+def _wgs():
+    from ahrs.common import constants as C
+    return float(C.EARTH_EQUATOR_RADIUS), float(C.EARTH_POLAR_RADIUS)
+
+
+def _call(f, *a, **k):
+    from vlib.core import call_outcome
+    return call_outcome(f, *a, **k)
+
+
+def cm_call(f, inp, entry):
+    r = _call(f, inp)
+    if r[0] == 'raise':
+        return {'tag': f"{entry}/oracle-raises-{r[1]}", 'observed': list(r[1:])}
+    return r[1]
+
+
+# ---------------------------------------------------------------- independent references (plain math, no ahrs)
+def ref_geodetic2ecef(lat, lon, h, a, b):
+    e2 = 1.0 - (b / a) ** 2
+    p, l = math.radians(lat), math.radians(lon)
+    N = a / math.sqrt(1.0 - e2 * math.sin(p) ** 2)
+    return np.array([(N + h) * math.cos(p) * math.cos(l), (N + h) * math.cos(p) * math.sin(l), (N * (1.0 - e2) + h) * math.sin(p)])
+
+
+def ref_T(a, b, p, z, phi):
+    e2 = (a ** 2 - b ** 2) / a ** 2
+    N = a / math.sqrt(1.0 - e2 * math.sin(phi) ** 2)
+    return math.atan2(z + e2 * N * math.sin(phi), p)
+
+
+def ref_Renu(lat, lon):
+    p, l = math.radians(lat), math.radians(lon)
+    sp, cp, sl, cl = math.sin(p), math.cos(p), math.sin(l), math.cos(l)
+    return np.array([[-sl, cl, 0.0], [-sp * cl, -sp * sl, cp], [cp * cl, cp * sl, sp]])
+
+
+def _lat_region(lat):
+    al = abs(lat)
+    if al == 90:
+        return 'pole'
+    if al > 89.9:
+        return 'near-pole'
+    if al < 1e-6:
+        return 'equator'
+    return 'north' if lat > 0 else 'south'
+
+
+def _lon_region(lon):
+    al = abs(lon)
+    if al >= 179.99:
+        return 'antimeridian'
+    return ('E' if lon >= 0 else 'W') + ('far' if al > 90 else 'near')
+
+
+def _circ(a, b, period=360.0):
+    d = (a - b) % period
+    return min(d, period - d)
+
+
+def _typed(vals, form):
+    if form == 'int':
+        return [int(v) for v in vals]
+    if form == 'npint':
+        return [np.int64(int(v)) for v in vals]
+    if form == 'np32':
+        return [np.float32(v) for v in vals]
+    if form == 'np64':
+        return [np.float64(v) for v in vals]
+    return [float(v) for v in vals]
+
+
+# ---------------------------------------------------------------- oracle 1: geodetic -> ECEF -> geodetic
+def o_geodetic(inp):
+    """geodetic2ecef equals the textbook formula; ecef2geodetic/ecef2lla return the original latitude, longitude, height;
+    the returned latitude is a fixed point of the hand model's loop body T"""
+    F = _F()
+    lat, lon, h = inp['lat'], inp['lon'], inp['h']
+    form = inp.get('form', 'float')
+    entry = inp.get('entry', 'ecef2geodetic')
+    ell = inp.get('ell')
+    a, b = ell if ell else _wgs()
+    extra = tuple(ell) if ell else ()
+    reg, lreg = _lat_region(lat), _lon_region(lon)
+    args = _typed([lat, lon, h], form)
+    r = _call(F.geodetic2ecef, *args, *extra)
+    if r[0] == 'raise':
+        return {'tag': f'geodetic2ecef/raises-{r[1]}-{reg}', 'observed': list(r[1:])}
+    X = np.asarray(r[1], float)
+    ref = ref_geodetic2ecef(lat, lon, h, a, b)
+    if X.shape != (3,) or cm.bad(X) or cm.maxabs(X, ref) > TOL_M:
+        return {'tag': f'geodetic2ecef/differs-from-formula-{reg}-{lreg}', 'observed': X, 'expected': ref}
+    X2 = np.asarray(F.geodetic2ecef(*_typed([lat, lon, h], form), *extra), float)
+    if cm.maxabs(X2, X) > 0:
+        return {'tag': 'geodetic2ecef/second-call-differs', 'observed': X2, 'expected': X}
+    r = _call(getattr(F, entry), *[float(v) for v in X], *extra)
+    if r[0] == 'raise':
+        return {'tag': f'{entry}/raises-{r[1]}-{reg}', 'observed': list(r[1:]), 'expected': [lat, lon, h]}
+    g = np.asarray(r[1], float)
+    if g.shape != (3,) or cm.bad(g):
+        return {'tag': f'{entry}/shape-or-nonfinite-{reg}', 'observed': g, 'expected': [lat, lon, h]}
+    if abs(g[0] - lat) > TOL_LAT:
+        return {'tag': f'{entry}/latitude-{reg}', 'observed': g, 'expected': [lat, lon, h]}
+    if _circ(g[1], lon) > TOL_LON:
+        return {'tag': f'{entry}/longitude-{reg}-{lreg}', 'observed': g, 'expected': [lat, lon, h]}
+    if abs(g[2] - h) > TOL_H:
+        return {'tag': f'{entry}/height-{reg}', 'observed': g, 'expected': [lat, lon, h]}
+    # hand-model tie on floats: the returned latitude is a fixed point of T up to the next increment of the loop, which is
+    # at most (contraction factor ~ e^2 <= 0.012 for the ellipsoids used) * (exit threshold 1e-8 rad) = 1.2e-10 rad
+    p = math.hypot(X[0], X[1])
+    phi = math.radians(g[0])
+    if abs(ref_T(a, b, p, X[2], phi) - phi) > 2e-10:
+        return {'tag': f'{entry}/not-a-fixed-point-of-T-{reg}', 'observed': ref_T(a, b, p, X[2], phi), 'expected': phi}
+    return None
+
+
+# ---------------------------------------------------------------- oracle 2: ECEF <-> ENU rigid and inverse
+def o_enu(inp):
+    """ECEF->ENU->ECEF and ENU->ECEF->ENU identities, isometry, origin -> 0, agreement with the rotation matrix, and
+    consistency of ecef2enuv / enu2uvw (deg, rad) / geodetic2enu with ecef2enu"""
+    F = _F()
+    lat, lon, h = inp['lat'], inp['lon'], inp['h']
+    form = inp.get('form', 'float')
+    d, d2 = np.array(inp['d'], float), np.array(inp['d2'], float)
+    reg = ('N' if lat >= 0 else 'S') + _lon_region(lon) + ('-pole' if abs(lat) == 90 else '')
+    O = _typed([lat, lon, h], form)
+    X0 = np.asarray(F.geodetic2ecef(*_typed([lat, lon, h], form)), float)
+    P, Q = X0 + d, X0 + d2
+    R = ref_Renu(lat, lon)
+    eP = np.asarray(F.ecef2enu(*P, *O), float)
+    eQ = np.asarray(F.ecef2enu(*Q, *O), float)
+    if eP.shape != (3,) or cm.bad(eP):
+        return {'tag': f'ecef2enu/shape-or-nonfinite-{reg}', 'observed': eP}
+    if cm.maxabs(eP, R @ (P - X0)) > TOL_M:
+        return {'tag': f'ecef2enu/differs-from-rotation-{reg}', 'observed': eP, 'expected': R @ (P - X0)}
+    back = np.asarray(F.enu2ecef(*eP, *_typed([lat, lon, h], form)), float)
+    if cm.maxabs(back, P) > TOL_M:
+        return {'tag': f'ecef2enu-enu2ecef/not-identity-{reg}', 'observed': back, 'expected': P}
+    E = np.asarray(F.enu2ecef(*_typed(d, 'float'), *_typed([lat, lon, h], form)), float)
+    if cm.maxabs(E, X0 + R.T @ d) > TOL_M:
+        return {'tag': f'enu2ecef/differs-from-rotation-{reg}', 'observed': E, 'expected': X0 + R.T @ d}
+    e2 = np.asarray(F.ecef2enu(*E, *_typed([lat, lon, h], form)), float)
+    if cm.maxabs(e2, d) > TOL_M:
+        return {'tag': f'enu2ecef-ecef2enu/not-identity-{reg}', 'observed': e2, 'expected': d}
+    if abs(np.linalg.norm(eP - eQ) - np.linalg.norm(P - Q)) > TOL_M:
+        return {'tag': f'ecef2enu/not-isometric-{reg}', 'observed': np.linalg.norm(eP - eQ), 'expected': np.linalg.norm(P - Q)}
+    z = np.asarray(F.ecef2enu(*X0, *_typed([lat, lon, h], form)), float)
+    if cm.maxabs(z) > TOL_M:
+        return {'tag': f'ecef2enu/origin-not-zero-{reg}', 'observed': z, 'expected': [0, 0, 0]}
+    zv = np.asarray(F.ecef2enuv(*X0, *X0, *_typed([lat, lon], form)), float)
+    if cm.maxabs(zv) > 0:
+        return {'tag': f'ecef2enuv/origin-not-zero-{reg}', 'observed': zv, 'expected': [0, 0, 0]}
+    ev = np.asarray(F.ecef2enuv(*P, *X0, *_typed([lat, lon], form)), float)
+    if cm.maxabs(ev, eP) > 1e-9:
+        return {'tag': f'ecef2enuv/differs-from-ecef2enu-{reg}', 'observed': ev, 'expected': eP}
+    u1 = np.asarray(F.enu2uvw(*d, *_typed([lat, lon], form)), float)
+    u2 = np.asarray(F.enu2uvw(*d, math.radians(lat), math.radians(lon), 'rad'), float)
+    sc = max(1.0, float(np.max(np.abs(d))))
+    if cm.maxabs(u1, R.T @ d) > REL * sc:
+        return {'tag': f'enu2uvw/differs-from-rotation-{reg}', 'observed': u1, 'expected': R.T @ d}
+    if cm.maxabs(u2, u1) > REL * sc:
+        return {'tag': f'enu2uvw/rad-differs-from-deg-{reg}', 'observed': u2, 'expected': u1}
+    if abs(np.linalg.norm(u1) - np.linalg.norm(d)) > REL * sc:
+        return {'tag': f'enu2uvw/not-isometric-{reg}', 'observed': np.linalg.norm(u1), 'expected': np.linalg.norm(d)}
+    g2 = inp.get('other')
+    if g2 is not None:
+        ge = np.asarray(F.geodetic2enu(*g2, lat, lon, h), float)
+        XP = np.asarray(F.geodetic2ecef(*g2), float)
+        want = R @ (XP - X0)
+        if cm.maxabs(ge, want) > TOL_M:
+            return {'tag': f'geodetic2enu/differs-from-rotation-{reg}', 'observed': ge, 'expected': want}
+    return None
+
+
+# ---------------------------------------------------------------- oracle 3: ENU <-> AER
+def o_aer(inp):
+    """ENU->AER->ENU identity, the returned AER against the spherical-coordinate formulas, ranges; AER->ENU->AER on the chart"""
+    F = _F()
+    deg = inp.get('deg', True)
+    k = {} if deg else {'deg': False}
+    full = 360.0 if deg else 2 * math.pi
+    conv = (lambda t: math.degrees(t)) if deg else (lambda t: t)
+    if 'enu' in inp:
+        v = np.array(inp['enu'], float)
+        args = _typed(v, inp.get('form', 'float'))
+        aer = np.asarray(F.enu2aer(*args, **k), float)
+        sl = float(np.linalg.norm(v))
+        sc = max(sl, 1e-300)
+        half = 'west' if v[0] < 0 else 'east'
+        if aer.shape != (3,) or cm.bad(aer):
+            return {'tag': f'enu2aer/shape-or-nonfinite-{half}', 'observed': aer}
+        if not (0 <= aer[0] <= full * (1 + 1e-15) and abs(aer[1]) <= full / 4 * (1 + 1e-15) and aer[2] >= 0):
+            return {'tag': f'enu2aer/out-of-range-{half}', 'observed': aer}
+        want = [conv(math.atan2(v[0], v[1])) % full, conv(math.atan2(v[2], math.hypot(v[0], v[1]))), sl]
+        if abs(aer[2] - sl) > 1e-12 * max(1.0, sl):
+            return {'tag': f'enu2aer/slant-range-{half}', 'observed': aer, 'expected': want}
+        if _circ(aer[0], want[0], full) > 1e-9 * full or abs(aer[1] - want[1]) > 1e-9 * full:
+            return {'tag': f'enu2aer/angles-{half}', 'observed': aer, 'expected': want}
+        back = np.asarray(F.aer2enu(*aer, **k), float)
+        if back.shape != (3,) or cm.maxabs(back, v) > REL * max(1.0, sl):
+            return {'tag': f'enu2aer-aer2enu/not-identity-{half}', 'observed': back, 'expected': v}
+        return None
+    az, el, r = inp['aer']
+    half = 'west' if (az % full) >= full / 2 else 'east'
+    enu = np.asarray(F.aer2enu(*_typed([az, el, r], inp.get('form', 'float')), **k), float)
+    a_, e_ = (math.radians(az), math.radians(el)) if deg else (az, el)
+    want = np.array([r * math.cos(e_) * math.sin(a_), r * math.cos(e_) * math.cos(a_), r * math.sin(e_)])
+    if enu.shape != (3,) or cm.bad(enu) or cm.maxabs(enu, want) > REL * max(1.0, abs(r)):
+        return {'tag': f'aer2enu/differs-from-formula-{half}', 'observed': enu, 'expected': want}
+    if r > 0 and abs(e_) < math.radians(89.0) and 0 <= az < full:
+        aer = np.asarray(F.enu2aer(*enu, **k), float)
+        if _circ(aer[0], az, full) > 1e-9 * full or abs(aer[1] - el) > 1e-9 * full or abs(aer[2] - r) > 1e-11 * max(1.0, r):
+            return {'tag': f'aer2enu-enu2aer/not-identity-{half}', 'observed': aer, 'expected': [az, el, r]}
+    return None
+
+
+# ---------------------------------------------------------------- oracle 4: ENU <-> DCA
+def o_dca(inp):
+    F = _F()
+    deg = inp.get('deg', True)
+    k = {} if deg else {'deg': False}
+    v = np.array(inp['v'], float)
+    ang = inp['ang']
+    form = inp.get('form', 'float')
+    t = math.radians(ang) if deg else ang
+    s, c = math.sin(t), math.cos(t)
+    M = np.array([[s, c, 0.0], [-c, s, 0.0], [0.0, 0.0, 1.0]])
+    sc = max(1.0, float(np.max(np.abs(v))))
+    q = 'beyond180' if abs((math.degrees(t) if not deg else ang)) > 180 else 'within180'
+    dca = np.asarray(F.enu2dca(*_typed(v, form), *_typed([ang], form), **k), float)
+    if dca.shape != (3,) or cm.bad(dca) or cm.maxabs(dca, M @ v) > REL * sc:
+        return {'tag': f'enu2dca/differs-from-matrix-{q}', 'observed': dca, 'expected': M @ v}
+    back = np.asarray(F.dca2enu(*dca, *_typed([ang], form), **k), float)
+    if cm.maxabs(back, v) > REL * sc:
+        return {'tag': f'enu2dca-dca2enu/not-identity-{q}', 'observed': back, 'expected': v}
+    enu = np.asarray(F.dca2enu(*_typed(v, form), *_typed([ang], form), **k), float)
+    if enu.shape != (3,) or cm.maxabs(enu, M.T @ v) > REL * sc:
+        return {'tag': f'dca2enu/differs-from-matrix-{q}', 'observed': enu, 'expected': M.T @ v}
+    back = np.asarray(F.enu2dca(*enu, *_typed([ang], form), **k), float)
+    if cm.maxabs(back, v) > REL * sc:
+        return {'tag': f'dca2enu-enu2dca/not-identity-{q}', 'observed': back, 'expected': v}
+    if abs(np.linalg.norm(dca) - np.linalg.norm(v)) > REL * sc:
+        return {'tag': f'enu2dca/not-isometric-{q}', 'observed': np.linalg.norm(dca), 'expected': np.linalg.norm(v)}
+    return None
+
+
+# ---------------------------------------------------------------- oracle 5: NED <-> ENU
+def o_ned(inp):
+    F = _F()
+    x = inp['x']
+    form = inp.get('form', 'float')
+    ref_in = np.array(x, float)
+    n = 'vec' if ref_in.ndim == 1 else f'rows{ref_in.shape[0]}'
+    mk = {'float': lambda: np.array(x, float), 'int': lambda: np.array(x, dtype=int), 'list': lambda: [list(r) if isinstance(r, list) else r for r in x],
+          'f32': lambda: np.array(x, dtype=np.float32)}[form]
+    want = ref_in[..., [1, 0, 2]] * np.array([1.0, 1.0, -1.0])
+    for name in ('ned2enu', 'enu2ned'):
+        f = getattr(F, name)
+        r = _call(f, mk())
+        if r[0] == 'raise':
+            return {'tag': f'{name}/raises-{r[1]}-{n}-{form}', 'observed': list(r[1:])}
+        y = np.asarray(r[1], float)
+        if y.shape != ref_in.shape or cm.bad(y) or cm.maxabs(y, want) > 0:
+            return {'tag': f'{name}/wrong-{n}-{form}', 'observed': y, 'expected': want}
+        other = getattr(F, 'enu2ned' if name == 'ned2enu' else 'ned2enu')
+        z = np.asarray(other(np.asarray(r[1])), float)
+        if z.shape != ref_in.shape or cm.maxabs(z, ref_in) > 0:
+            return {'tag': f'{name}/not-involutive-{n}-{form}', 'observed': z, 'expected': ref_in}
+    return None
+
+
+# ---------------------------------------------------------------- oracle 6: LLF matrices
+def o_llf(inp):
+    F = _F()
+    lat, lon = inp['lat'], inp['lon']
+    A = np.asarray(F.llf2ecef(*_typed([lat, lon], inp.get('form', 'float'))), float)
+    B = np.asarray(F.ecef2llf(*_typed([lat, lon], inp.get('form', 'float'))), float)
+    if A.shape != (3, 3) or B.shape != (3, 3) or cm.bad(A) or cm.bad(B):
+        return {'tag': 'llf/shape-or-nonfinite', 'observed': [A, B]}
+    if cm.maxabs(A, B.T) > 0:
+        return {'tag': 'llf/not-transposes', 'observed': A, 'expected': B.T}
+    if cm.maxabs(A @ B, np.eye(3)) > 1e-12 or cm.maxabs(B @ A, np.eye(3)) > 1e-12:
+        return {'tag': 'llf/not-orthogonal', 'observed': A @ B, 'expected': np.eye(3)}
+    if abs(np.linalg.det(A) - 1) > 1e-12 or abs(np.linalg.det(B) - 1) > 1e-12:
+        return {'tag': 'llf/not-proper', 'observed': [np.linalg.det(A), np.linalg.det(B)], 'expected': 1}
+    return None
+
+
+ORACLES = {'geodetic': o_geodetic, 'enu': o_enu, 'aer': o_aer, 'dca': o_dca, 'ned': o_ned, 'llf': o_llf}
+
+
+# ---------------------------------------------------------------- generators
+def geo_points(rng, n, full=False):
+    """(lat, lon, h): the cross product of the thin regions (sub-sampled unless `full`), then uniform draws"""
+    out = []
+    for i, lat in enumerate(LAT_EDGE):
+        for j, lon in enumerate(LON_EDGE):
+            for k, h in enumerate(H_EDGE):
+                if full or (i + 2 * j + 3 * k) % 7 == 0 or (k < 3 and (lat in (90.0, -90.0, 0.0) or lon in (180.0, -180.0))):
+                    out.append((lat, lon, h))
+    while len(out) < n:
+        u = rng.random()
+        lat = rng.uniform(-90, 90) if u < 0.7 else (90 - 10 ** rng.uniform(-12, 0)) * rng.choice([-1, 1]) if u < 0.85 else 10 ** rng.uniform(-9, -4) * rng.choice([-1, 1])
+        lon = rng.uniform(-180, 180) if rng.random() < 0.9 else rng.choice([-1, 1]) * (180 - 10 ** rng.uniform(-12, -3))
+        h = rng.uniform(-1e4, 1e6) if rng.random() < 0.8 else float(rng.choice([-1e4, 0.0, 1e6]))
+        out.append((float(lat), float(lon), float(h)))
+    return out
+
+
+def offsets(rng, n):
+    out = [[0.0, 0.0, 0.0], [1.0, 0.0, 0.0], [0.0, -1.0, 0.0], [0.0, 0.0, 1e6], [-1e6, 1e6, -1e6], [3.0, -4.0, 12.0], [1e-3, 2e-3, -5e-4]]
+    while len(out) < n:
+        out.append((rng.standard_normal(3) * 10 ** rng.uniform(-2, 6)).clip(-1e6, 1e6).tolist())
+    return out
+
+
+def enu_points(rng, n):
+    out = [[0.0, 0.0, 0.0], [0.0, 0.0, 5.0], [0.0, 0.0, -5.0], [1.0, 0.0, 0.0], [-1.0, 0.0, 0.0], [0.0, 1.0, 0.0], [0.0, -1.0, 0.0],
+           [-1e-20, 1.0, 0.0], [-1e-20, -1.0, 0.5], [1.0, 1.0, 1.0], [-1.0, 1.0, -1.0], [-3.0, -4.0, 12.0], [3.0, -4.0, 0.0],
+           [8.4504, 12.4737, 1.1046], [-1e6, -1e6, 1e6], [1e-9, -1e-9, 1e-9], [-5e-324, 1.0, 0.0]]
+    while len(out) < n:
+        out.append((rng.standard_normal(3) * 10 ** rng.uniform(-3, 6)).tolist())
+    return out
+
+
+AZ_EDGE = [0.0, 90.0, 180.0, 270.0, 359.999999, 180.000001, 179.999999, 45.0, 135.0, 225.0, 315.0, 200.0, 34.116]
+ANG_EDGE = [0.0, 90.0, -90.0, 180.0, -180.0, 270.0, 360.0, 450.0, -725.0, 45.0, 200.0, -135.0, 1e-9]
+
+
+# ---------------------------------------------------------------- correspondence of the regenerated float definitions
+def correspondence(ctx):
+    F = _F()
+    a, b = _wgs()
+    rng = ctx.rng
+    n = ctx.n(70, 700)
+    pts = geo_points(rng, n)
+    pts = pts[:: max(1, len(pts) // n)][:n] + [(90.0, 30.0, 1000.0), (-90.0, -120.0, 0.0), (0.0, 0.0, 0.0), (1e-7, 10.0, 1e6), (0.0, 180.0, -1e4), (45.0, -180.0, 0.0)]
+    bad = [(90.0000001, 0.0, 0.0), (-91.0, 10.0, 5.0), (10.0, 180.0000001, 0.0), (0.0, -181.0, 1.0), (95.0, 190.0, 0.0)]
+    G = lambda p: {'lat': p[0], 'lon': p[1], 'h': p[2]}
+    ctx.correspond('C17_geodetic2ecef', [G(p) for p in pts + bad], lambda c: F.geodetic2ecef(c['lat'], c['lon'], c['h']))
+    ells = [e for e in ELLIPSOIDS if e] + [(a, b)]
+    ctx.correspond('C17_geodetic2ecef_ab', [{**G(p), 'a': ells[i % len(ells)][0], 'b': ells[i % len(ells)][1]} for i, p in enumerate(pts + bad)],
+                   lambda c: F.geodetic2ecef(c['lat'], c['lon'], c['h'], c['a'], c['b']))
+    X = lambda p, e=None: dict(zip('xyz', [float(v) for v in (F.geodetic2ecef(*p, *e) if e else F.geodetic2ecef(*p))]))
+    # tolerance: identical binary64 operations on both sides; 64 ulp-units of 7e6 is 1e-7 in every component
+    ctx.correspond('C17_ecef2geodetic_u', [X(p) for p in pts], lambda c: F.ecef2geodetic(c['x'], c['y'], c['z']))
+    ctx.correspond('C17_ecef2lla_u', [X(p) for p in pts[::3]], lambda c: F.ecef2lla(c['x'], c['y'], c['z']))
+    ctx.correspond('C17_ecef2geodetic_ab_u', [{**X(p, ells[i % len(ells)]), 'a': ells[i % len(ells)][0], 'b': ells[i % len(ells)][1]} for i, p in enumerate(pts)],
+                   lambda c: F.ecef2geodetic(c['x'], c['y'], c['z'], c['a'], c['b']))
+    offs = offsets(rng, len(pts))
+    cases = []
+    for p, d in zip(pts + bad, offs + offs[:len(bad)]):
+        x0 = ref_geodetic2ecef(p[0], p[1], p[2], a, b)
+        cases.append({**dict(zip('xyz', (x0 + np.array(d)).tolist())), **G(p)})
+    ctx.correspond('C17_ecef2enu', cases, lambda c: F.ecef2enu(c['x'], c['y'], c['z'], c['lat'], c['lon'], c['h']))
+    ctx.correspond('C17_enu2ecef', [{'e': d[0], 'n': d[1], 'u': d[2], **G(p)} for p, d in zip(pts + bad, offs + offs[:len(bad)])],
+                   lambda c: F.enu2ecef(c['e'], c['n'], c['u'], c['lat'], c['lon'], c['h']))
+    ctx.correspond('C17_ecef2enuv', [{**{k: c[k] for k in 'xyz'}, 'x0': c['x'] - d[0], 'y0': c['y'] - d[1], 'z0': c['z'] - d[2], 'lat': c['lat'] * 1.7, 'lon': c['lon'] * 1.3}
+                                     for c, d in zip(cases, offs + offs)],
+                   lambda c: F.ecef2enuv(c['x'], c['y'], c['z'], c['x0'], c['y0'], c['z0'], c['lat'], c['lon']))
+    uv = [{'e': d[0], 'n': d[1], 'u': d[2], 'lat': p[0] * 2.1, 'lon': p[1] * 1.9} for p, d in zip(pts, offs)]
+    ctx.correspond('C17_enu2uvw', uv, lambda c: F.enu2uvw(c['e'], c['n'], c['u'], c['lat'], c['lon']))
+    ctx.correspond('C17_enu2uvw_rad', [{**c, 'lat': math.radians(c['lat']), 'lon': math.radians(c['lon'])} for c in uv],
+                   lambda c: F.enu2uvw(c['e'], c['n'], c['u'], c['lat'], c['lon'], 'rad'))
+    ctx.correspond('C17_geodetic2enu', [{**G(p), 'lat0': q[0], 'lon0': q[1], 'h0': q[2]} for p, q in zip(pts + bad, pts[5:] + pts[:5] + bad)][:ctx.n(40, 300)],
+                   lambda c: F.geodetic2enu(c['lat'], c['lon'], c['h'], c['lat0'], c['lon0'], c['h0']))
+    en = enu_points(rng, ctx.n(40, 300))
+    V3 = lambda v: dict(zip('xyz', v))
+    ctx.correspond('C17_ned2enu', [V3(v) for v in en], lambda c: F.ned2enu(np.array([c['x'], c['y'], c['z']])))
+    ctx.correspond('C17_enu2ned', [V3(v) for v in en], lambda c: F.enu2ned(np.array([c['x'], c['y'], c['z']])))
+    for nrows, suffix in ((2, 'rows'), (3, 'rows3'), (4, 'rows4')):
+        names = ['x', 'y', 'z', 'x0', 'y0', 'z0'] if nrows == 2 else ROWS(nrows)
+        rc = []
+        for i in range(0, len(en) - nrows, nrows):
+            rc.append(dict(zip(names, [float(t) for v in en[i:i + nrows] for t in v])))
+        mat = lambda c, names=names, nrows=nrows: np.array([c[k] for k in names]).reshape(nrows, 3)
+        ctx.correspond(f'C17_ned2enu_{suffix}', rc, lambda c, mat=mat: F.ned2enu(mat(c)))
+        ctx.correspond(f'C17_enu2ned_{suffix}', rc, lambda c, mat=mat: F.enu2ned(mat(c)))
+    E3 = lambda v: {'e': v[0], 'n': v[1], 'u': v[2]}
+    ctx.correspond('C17_enu2aer', [E3(v) for v in en], lambda c: F.enu2aer(c['e'], c['n'], c['u']), tol_ulp=256)
+    ctx.correspond('C17_enu2aer_rad', [E3(v) for v in en], lambda c: F.enu2aer(c['e'], c['n'], c['u'], deg=False), tol_ulp=256)
+    aers = [{'az': AZ_EDGE[i % len(AZ_EDGE)] if i < 2 * len(AZ_EDGE) else float(rng.uniform(-400, 800)),
+             'el': float(rng.uniform(-90, 90)) if i % 5 else [90.0, -90.0, 0.0][i % 3], 'r': float(10 ** rng.uniform(-3, 6))} for i in range(len(en))]
+    ctx.correspond('C17_aer2enu', aers, lambda c: F.aer2enu(c['az'], c['el'], c['r']))
+    ctx.correspond('C17_aer2enu_rad', [{**c, 'az': math.radians(c['az']), 'el': math.radians(c['el'])} for c in aers],
+                   lambda c: F.aer2enu(c['az'], c['el'], c['r'], deg=False))
+    dc = [{**E3(v), 'ang': ANG_EDGE[i % len(ANG_EDGE)] if i < 2 * len(ANG_EDGE) else float(rng.uniform(-720, 720))} for i, v in enumerate(en)]
+    D3 = lambda c: {'d': c['e'], 'c': c['n'], 'k': c['u'], 'ang': c['ang']}
+    ctx.correspond('C17_enu2dca', dc, lambda c: F.enu2dca(c['e'], c['n'], c['u'], c['ang']))
+    ctx.correspond('C17_dca2enu', [D3(c) for c in dc], lambda c: F.dca2enu(c['d'], c['c'], c['k'], c['ang']))
+    ctx.correspond('C17_enu2dca_rad', [{**c, 'ang': math.radians(c['ang'])} for c in dc], lambda c: F.enu2dca(c['e'], c['n'], c['u'], c['ang'], deg=False))
+    ctx.correspond('C17_dca2enu_rad', [{**D3(c), 'ang': math.radians(c['ang'])} for c in dc], lambda c: F.dca2enu(c['d'], c['c'], c['k'], c['ang'], deg=False))
+    ll = [{'lat': math.radians(p[0]) * 2, 'lon': math.radians(p[1])} for p in pts[:ctx.n(40, 300)]]
+    ctx.correspond('C17_llf2ecef', ll, lambda c: F.llf2ecef(c['lat'], c['lon']))
+    ctx.correspond('C17_ecef2llf', ll, lambda c: F.ecef2llf(c['lat'], c['lon']))
+
+
+# ---------------------------------------------------------------- search
+def search(ctx, scale):
+    rng = ctx.rng
+    rk = lambda *v: tuple(np.round(np.array(v, float).ravel(), 9).tolist())
+    # 1. geodetic round trip: the full cross product of the thin regions, then draws; both entry points; other ellipsoids;
+    #    integer-typed and numpy-scalar arguments where the values are integers
+    pts = geo_points(rng, 1600 + 900 * scale, full=True)
+    for i, (lat, lon, h) in enumerate(pts):
+        inp = {'lat': lat, 'lon': lon, 'h': h, 'entry': 'ecef2lla' if i % 4 == 3 else 'ecef2geodetic'}
+        if i % 9 == 4:
+            inp['ell'] = list(ELLIPSOIDS[1 + (i // 9) % 4])
+        if float(lat).is_integer() and float(lon).is_integer() and float(h).is_integer():
+            inp['form'] = ('int', 'npint', 'np64', 'float')[i % 4]
+        ctx.check('geodetic', inp, cm_call(o_geodetic, inp, 'geodetic'), nontrivial_key=rk(lat, lon, h) + (inp['entry'], inp.get('form', '')))
+    # 2. ECEF <-> ENU about every kind of origin
+    offs = offsets(rng, 300 * scale)
+    org = geo_points(rng, 300 * scale)
+    step = max(1, len(org) // (300 * scale))
+    org = org[::step]
+    for i, d in enumerate(offs):
+        lat, lon, h = org[i % len(org)]
+        d2 = offs[(7 * i + 3) % len(offs)]
+        inp = {'lat': lat, 'lon': lon, 'h': h, 'd': d, 'd2': d2}
+        if i % 3 == 0:
+            inp['other'] = list(org[(5 * i + 1) % len(org)])
+        if float(lat).is_integer() and float(lon).is_integer() and float(h).is_integer() and i % 2:
+            inp['form'] = 'int'
+        ctx.check('enu', inp, cm_call(o_enu, inp, 'enu'), nontrivial_key=rk(lat, lon, h, *d) if any(d) else None)
+    # 3. AER
+    for i, v in enumerate(enu_points(rng, 200 * scale)):
+        for deg in (True, False):
+            inp = {'enu': v, 'deg': deg}
+            if all(float(t).is_integer() for t in v) and i % 2:
+                inp['form'] = 'int'
+            ctx.check('aer', inp, cm_call(o_aer, inp, 'aer'), nontrivial_key=rk(*v) + (deg,) if any(v) else None)
+    for i in range(150 * scale):
+        az = AZ_EDGE[i % len(AZ_EDGE)] if i < 3 * len(AZ_EDGE) else float(rng.uniform(0, 360))
+        el = [0.0, 35.0, -35.0, 88.9, -88.9, 4.1931][i % 6] if i < 3 * len(AZ_EDGE) else float(rng.uniform(-88.9, 88.9))
+        r = [1.0, 15.107, 1e6, 1e-3][i % 4] if i < 3 * len(AZ_EDGE) else float(10 ** rng.uniform(-3, 6))
+        for deg in (True, False):
+            inp = {'aer': [az, el, r] if deg else [math.radians(az), math.radians(el), r], 'deg': deg}
+            ctx.check('aer', inp, cm_call(o_aer, inp, 'aer'), nontrivial_key=rk(az, el, r) + (deg, 'chart'))
+    # 4. DCA
+    vs = enu_points(rng, 150 * scale)
+    for i, v in enumerate(vs):
+        ang = ANG_EDGE[i % len(ANG_EDGE)] if i < 3 * len(ANG_EDGE) else float(rng.uniform(-720, 720))
+        for deg in (True, False):
+            inp = {'v': v, 'ang': ang if deg else math.radians(ang), 'deg': deg}
+            if deg and all(float(t).is_integer() for t in v) and float(ang).is_integer():
+                inp['form'] = 'int'
+            ctx.check('dca', inp, cm_call(o_dca, inp, 'dca'), nontrivial_key=rk(*v, ang) + (deg,) if any(v) else None)
+    # 5. NED <-> ENU: vectors and (N,3) arrays of every small N, float / int / list / float32 operands
+    ints = [[1, 2, 3], [-4, 5, -6], [7, 0, 9], [0, -1, 0], [10, 20, 30], [3, 1, 2], [-7, -8, -9]]
+    for N in (0, 1, 2, 3, 4, 5, 7):
+        for form in ('float', 'int', 'list', 'f32'):
+            x = ints[0] if N == 0 else ints[:N]
+            inp = {'x': x, 'form': form}
+            ctx.check('ned', inp, cm_call(o_ned, inp, 'ned'), nontrivial_key=(N, form))
+        for t in range(3 * scale):
+            x = (rng.standard_normal(3) * 10 ** rng.uniform(-3, 6)).tolist() if N == 0 else (rng.standard_normal((N, 3)) * 10 ** rng.uniform(-3, 6)).tolist()
+            inp = {'x': x, 'form': 'float'}
+            ctx.check('ned', inp, cm_call(o_ned, inp, 'ned'), nontrivial_key=(N, 'float', t))
+    # 6. LLF matrices, all angles (radians; any real)
+    for i in range(60 * scale):
+        lat = [0.0, math.pi / 2, -math.pi / 2, math.pi, 1.0, -2.5][i % 6] if i < 12 else float(rng.uniform(-7, 7))
+        lon = [0.0, math.pi, -math.pi / 2, 0.3, -3.0][i % 5] if i < 12 else float(rng.uniform(-7, 7))
+        inp = {'lat': lat, 'lon': lon}
+        if float(lat).is_integer() and float(lon).is_integer():
+            inp['form'] = 'int'
+        ctx.check('llf', inp, cm_call(o_llf, inp, 'llf'), nontrivial_key=rk(lat, lon))
+    ctx.samples.append({'kind': 'search', 'oracle': 'geodetic', 'input': {'lat': 90.0, 'lon': 30.0, 'h': 1000.0}})
+    ctx.samples.append({'kind': 'search', 'oracle': 'geodetic', 'input': {'lat': 0.0, 'lon': 45.0, 'h': 100.0}})
